@@ -109,8 +109,8 @@ impl Scenario for Events {
     }
     fn runs(&self, tier: Tier) -> u64 {
         match tier {
-            Tier::Quick => 100_000,
-            Tier::Thorough => 10_000_000,
+            Tier::Quick => 400000,
+            Tier::Thorough => 20000000,
         }
     }
     fn declare(&self, cov: &mut Cov) {
@@ -127,7 +127,7 @@ impl Scenario for Events {
         cov.probe_declare("setctrl_between_two_presses");
         cov.probe_declare("modifier_change_between_two_presses");
         cov.probe_declare("setctrl_while_ordinary_key_held");
-        cov.probe_declare("event_arrived_via_wire_and_queue");
+        cov.probe_declare("obs_event_arrived_via_wire_and_queue");
         cov.probe_declare("clear_while_modifier_held");
         if self.prop == EProp::C14 {
             cov.probe_declare("layout_change_between_two_presses");
@@ -294,7 +294,7 @@ impl Scenario for Events {
         let mut refm = initial_mods();
         // C14 only: a twin Keyboard fed the same events gives the live modifier state of a
         // bare EventDecoder (which has no getter) without consulting the C04 model
-        let mut twin = Keyboard::new(DynSet::new(cfg.set), DynLayout::Direct(2), hc(cfg.map));
+        let mut twin = Keyboard::new(DynSet::new(cfg.set), DynLayout::Null, hc(cfg.map));
         let mut mode = cfg.map;
         let mut queue: VecDeque<KeyEvent> = VecDeque::new();
         let mut violation: Option<Violation> = None;
@@ -328,7 +328,7 @@ impl Scenario for Events {
                 }
                 Op::Pev => {
                     if let Some(e) = queue.pop_front() {
-                        env.cov.probe("event_arrived_via_wire_and_queue");
+                        env.cov.probe("obs_event_arrived_via_wire_and_queue");
                         event = Some((e.code, e.state, true));
                     }
                 }
@@ -414,7 +414,8 @@ impl Scenario for Events {
             if let Some((k, s, _via_queue)) = event {
                 let ki = kidx(k).min(NKEYS - 1);
                 let live_before: Modifiers = if c14 { sut.mods().unwrap_or_else(|| twin.get_modifiers().clone()) } else { refm.clone() };
-                let before = if c14 { live_before.clone() } else { refm.clone() };
+                let before = refm.clone(); // model side: used for coverage cells and probes only
+                let _ = &live_before;
                 // model-side fault accounting
                 match s {
                     KeyState::Down => {
@@ -524,7 +525,7 @@ impl Scenario for Events {
                             }
                         }
                         KeyState::Down if is_mod_key(k) => {
-                            let want = if k == KeyCode::NumpadLock && before.rctrl2 { KeyCode::PauseBreak } else { k };
+                            let want = if k == KeyCode::NumpadLock && live_before.rctrl2 { KeyCode::PauseBreak } else { k };
                             if r != Some(DecodedKey::RawKey(want)) {
                                 fail!(
                                     'ops,
@@ -532,7 +533,7 @@ impl Scenario for Events {
                                     "modifier-press-yields-raw-key",
                                     "Down({}) with [{}] yielded {}, expected RawKey({})",
                                     kname(k),
-                                    mods_show(&before),
+                                    mods_show(&live_before),
                                     decoded_show(&r),
                                     kname(want)
                                 );
@@ -542,7 +543,7 @@ impl Scenario for Events {
                             if lenient_key(k) {
                                 env.cov.probe("lenient_key_pressed");
                             }
-                            if live != initial_mods() {
+                            if refm != initial_mods() {
                                 env.cov.probe("layout_consulted_with_nondefault_modifiers");
                             }
                             // exactly what the currently installed layout returned for (k, live modifiers, live mode)
